@@ -16,4 +16,8 @@ META["C03"] = {
     "text": "As C02 for the legacy algorithm: all 128 non-FORKID hash types, in-range indices, shapes up to the bound; reference written from the original SignatureHash (including the SINGLE out-of-range constant 1) and validated natively against the node's 500 sighash_legacy.json vectors.",
     "note": "Trusted: gosym, z3; SHA-256 uninterpreted. Previous txids are 32 bytes (as the property's quantifier states).",
 }
+META["C07"] = {
+    "text": "Bounded symbolic model checking of totality: (a) one interpreter step (the real Step/executeOpcode and every non-signature opcode handler) from an arbitrary state satisfying the thread invariants - symbolic opcode, flag word, era, stack contents up to the stated depth/size - with every Go fault (index, slice, nil, shift, division, explicit panic, log.Fatal) as a solver obligation plus a progress (ranking) assertion; (b) Engine.Execute entry with every nil/non-nil argument combination, arbitrary input index and flags; (c) the full parse-execute-check pipeline on arbitrary short scripts. Termination for longer scripts follows from the per-step ranking by induction (paper argument).",
+    "note": "Trusted: gosym SSA semantics, math/big modelled as exact arbitrary-width bit-vectors, hash functions uninterpreted. Outside the claim: stack items longer than K bytes, MUL/DIV/MOD operands longer than KM bytes, loops cut at U symbolic iterations (NUM2BIN target sizes), signature opcodes (C06), whole scripts longer than L bytes.",
+}
 NOT_APPLICABLE = {}
